@@ -92,9 +92,13 @@ class Farm:
         p.start()
         return {"p": p, "in": inq, "out": outq, "job": None, "t0": None}
 
-    def run(self, queries, progress=None):
-        """queries: list of dict(id, text, timeout_s, goal_text?) -> dict id -> result"""
+    def run(self, queries, progress=None, max_sat=None):
+        """queries: list of dict(id, text, timeout_s, goal_index?, expect?) -> dict id -> result.
+        max_sat: once that many queries that were expected unsat came back sat, the queries not yet started are
+        reported as 'skipped' (inconclusive): a broken tree need not be explored exhaustively."""
         results = {}
+        nsat = 0
+        expect = {q["id"]: q.get("expect", "unsat") for q in queries}
         pending = list(queries)[::-1]
         n = min(self.n, max(1, len(pending)))
         while len(self.procs) < n:
@@ -120,6 +124,13 @@ class Farm:
                     qid = None
                 if qid is not None:
                     results[qid] = res
+                    if res.get("status") == "sat" and expect.get(qid) == "unsat":
+                        nsat += 1
+                        if max_sat is not None and nsat >= max_sat and pending:
+                            for q in pending:
+                                results[q["id"]] = {"status": "skipped", "trivial": False, "t": 0.0, "reason": f"not started: {nsat} counterexamples already found"}
+                            done += len(pending)
+                            pending = []
                     self.cpu += res.get("t", 0.0)
                     w["job"] = None
                     active -= 1
